@@ -361,8 +361,9 @@ func (r *runner) report(p Prog, v verdict, sem bool) {
 		return
 	}
 	r.out.Count("shrunk:" + v.Class)
-	mp, mv := shrink(p, v.Class, sem)
-	key, src := failKey(mp)
+	mp, _ := shrink(p, v.Class, sem)
+	key, kp, mv := failKey(mp, sem)
+	src := kp.Render()
 	if r.seen[key] {
 		return
 	}
@@ -376,18 +377,102 @@ func (r *runner) report(p Prog, v verdict, sem bool) {
 	})
 }
 
-// failKey: stable name of a minimised failing program.
-func failKey(p Prog) (key, src string) {
-	src = p.Render()
-	if len(p.Incs) == 0 && len(p.NSs) == 0 && len(p.Cpps) == 0 && len(p.Defs) == 1 {
-		d := p.Defs[0]
-		if d.Kind == "const" && d.Val.Kind == "lit" && len(d.Anns) == 0 && len(d.Ty.Anns) == 0 {
-			if a, err := safeParse("a.thrift", src); err == nil && len(a.Constants) == 1 && a.Constants[0].Value.TypedValue.Literal != nil {
-				return "literal:" + vl.Hex(*a.Constants[0].Value.TypedValue.Literal), src
+// failKey: stable name of a minimised failing program. Where the failure is carried by one literal or one
+// type expression, the literal/type is transplanted into a canonical one-line program; if that program
+// fails too, it becomes the reported input (so that the same defect met at different places of a
+// program gets the same key).
+func failKey(p Prog, sem bool) (key string, q Prog, v verdict) {
+	var lits []Lit
+	var cpp *Ty
+	addA := func(a []Ann) {
+		for _, x := range a {
+			lits = append(lits, x.V)
+		}
+	}
+	var tyW func(t Ty)
+	tyW = func(t Ty) {
+		addA(t.Anns)
+		if t.Cpp != nil && cpp == nil {
+			c := t
+			cpp = &c
+		}
+		if t.K != nil {
+			tyW(*t.K)
+		}
+		if t.V != nil {
+			tyW(*t.V)
+		}
+	}
+	var cvW func(c CV)
+	cvW = func(c CV) {
+		if c.Kind == "lit" {
+			lits = append(lits, c.Lit)
+		}
+		for _, x := range c.List {
+			cvW(x)
+		}
+		for _, kv := range c.Map {
+			cvW(kv[0])
+			cvW(kv[1])
+		}
+	}
+	flW := func(fs []Field) {
+		for _, f := range fs {
+			tyW(f.Ty)
+			addA(f.Anns)
+			if f.Def != nil {
+				cvW(*f.Def)
 			}
 		}
 	}
-	return "idl:" + strings.TrimSpace(src), src
+	for _, n := range p.NSs {
+		addA(n.Anns)
+	}
+	for _, d := range p.Defs {
+		addA(d.Anns)
+		tyW(d.Ty)
+		cvW(d.Val)
+		for _, e := range d.EVs {
+			addA(e.Anns)
+		}
+		flW(d.Fields)
+		for _, f := range d.Funcs {
+			addA(f.Anns)
+			tyW(f.Ty)
+			flW(f.Args)
+			flW(f.Throws)
+		}
+	}
+	litValue := func(l Lit) string {
+		if a, err := safeParse("a.thrift", "const string a = "+l.String()+"\n"); err == nil && len(a.Constants) == 1 && a.Constants[0].Value.TypedValue.Literal != nil {
+			return *a.Constants[0].Value.TypedValue.Literal
+		}
+		return l.Raw
+	}
+	for _, l := range lits {
+		c := Prog{Defs: []Def{{Kind: "const", Name: "a", Ty: Ty{Name: "string"}, Val: CV{Kind: "lit", Lit: l}}}}
+		if cv := checkSrc(c.Render(), sem); cv.Class != "" && cv.Class != "gen-reject" {
+			return "literal:" + vl.Hex(litValue(l)), c, cv
+		}
+	}
+	for _, l := range lits {
+		c := Prog{Defs: []Def{{Kind: "typedef", Name: "a", Ty: Ty{Name: "i32", Anns: []Ann{{"a", l}}}}}}
+		if cv := checkSrc(c.Render(), sem); cv.Class != "" && cv.Class != "gen-reject" {
+			return "type-annotation:" + vl.Hex(litValue(l)), c, cv
+		}
+	}
+	if cpp != nil {
+		i32 := Ty{Name: "i32"}
+		t := Ty{Name: cpp.Name, V: &i32, Cpp: &Lit{`"`, "a"}}
+		if cpp.K != nil {
+			t.K = &i32
+		}
+		c := Prog{Defs: []Def{{Kind: "typedef", Name: "a", Ty: t}}}
+		if cv := checkSrc(c.Render(), sem); cv.Class != "" && cv.Class != "gen-reject" {
+			return "idl:" + strings.TrimSpace(c.Render()), c, cv
+		}
+	}
+	return "idl:" + strings.TrimSpace(p.Render()), p, checkSrc(p.Render(), sem)
 }
 
 // ---- hand-built ASTs: drive the writer model outside what the parser can produce too
